@@ -355,6 +355,12 @@ pub fn monitor_c11(m: &mut Mon, w: &IncWorld, pre: &Snap, op: &Op, ok: bool, pos
     m.check(s1 >= s0, "custody: the unaccounted LP surplus decreased");
     let donation = matches!(op, Op::Donate { asset, .. } if *asset == lp);
     if exact && !donation { m.check(s1 == s0, &format!("custody: LP balance moved by {} more than positions and LP flow funds although the operation carried exact funds", s1 - s0)); }
+    // staked LP can be taken out again: the owner of an open position with no rewards pending can close it (only then can Withdraw return it)
+    if let (false, Op::ClosePosition { sender, dur, .. }) = (ok, op) {
+        let has = pre.st.open.get(&w.name(*sender)).map(|v| v.iter().any(|p| p.1 == *dur && p.0 > 0)).unwrap_or(false);
+        let nothing_pending = matches!(pre.rewards.get(sender), Some(Ok(v)) if v.iter().all(|x| x.1 == 0));
+        if has && nothing_pending { m.check(false, &format!("locked: the owner of an open position (unbonding duration {}) with no rewards pending cannot close it", dur)); }
+    }
     if !ok { return; }
     let others_same = |except: &str| -> bool {
         pre.st.open.iter().all(|(k, v)| k == except || post.st.open.get(k) == Some(v))
